@@ -391,6 +391,7 @@ class Exec:
     # ---------------- per path state
     def reset_path(s):
         s.solver = z3.Solver()
+        s.solver.set('timeout', getattr(s, 'query_timeout_ms', 20000))
         s.pc = []
         s.trace = []; s.pos = 0
         s.steps = 0; s.depth = 0; s.maxdepth_seen = 0
